@@ -257,7 +257,7 @@ R_GLOB = _eff_rule("R-GLOB", "glob_obligations")
 R_EFF = _eff_rule("R-EFF", "eff_obligations")
 R_ALLOC = _eff_rule("R-ALLOC", "alloc_obligations")
 
-_prop("C20", [R_GLOB, R_EFF, R_ALLOC, R_DOM, R_SCTX, R_PAIR], "",
+_prop("C20", [R_GLOB, R_EFF, R_ALLOC, R_DOM, R_SCTX, R_PAIR, R_CONST, R_CAP, R_NULL, R_MUST], "",
       "equality of results across randomisation histories (the blinding invariant nG = comb(n + offset) + ge_offset is algebra) and across "
       "compression-function replacements",
       explanation="Context independence, state/effect clauses: R-GLOB every object with static storage duration in the library's translation units is const "
